@@ -193,6 +193,165 @@ pub fn run_history_on<P: Payload>(w: &mut World<P>, ops: &[Op], prof: &Profile, 
 }
 
 // ------------------------------------------------------------------------------------------------
+// C13: arenas are plain values.  A case is ONE op vector
+//     [Reserve{cap}] prefix [Probe{MARK_A}] contA [Probe{MARK_B}] contB
+// so that the shrinker and the replay files work unchanged.
+
+pub const MARK_A: u64 = 0xC13A;
+pub const MARK_B: u64 = 0xC13B;
+
+pub fn c13_split(ops: &[Op]) -> (usize, Vec<Op>, Vec<Op>, Vec<Op>) {
+    let mut cap = 0usize;
+    let mut parts: [Vec<Op>; 3] = [Vec::new(), Vec::new(), Vec::new()];
+    let mut cur = 0;
+    for (i, op) in ops.iter().enumerate() {
+        match op {
+            Op::Reserve { k } if i == 0 => cap = *k as usize,
+            Op::Probe { seed } if *seed == MARK_A => cur = 1,
+            Op::Probe { seed } if *seed == MARK_B => cur = 2,
+            Op::Probe { .. } => {}
+            o => parts[cur].push(o.clone()),
+        }
+    }
+    let [p, a, b] = parts;
+    (cap, p, a, b)
+}
+
+pub fn c13_eval<P: Payload>(ops: &[Op], prof: &Profile, cfg: &StepCfg, record: bool) -> CaseRun {
+    let (cap, pre, a, b) = c13_split(ops);
+    let flat = Profile { deep: DeepCfg::none(), ..prof.clone() };
+    let mut total = CaseRun::default();
+    let mut fails: Vec<Failure> = Vec::new();
+    macro_rules! sub {
+        ($w:expr, $ops:expr) => {{
+            let r = run_history_on($w, $ops, &flat, cfg, record);
+            total.evals += r.evals;
+            total.steps += r.steps;
+            total.skipped += r.skipped;
+            total.classes.extend(r.classes.iter().cloned());
+            total.nt.extend(r.nt.iter().copied());
+            if record {
+                total.trace.extend(r.trace.iter().cloned());
+                total.trace.push("--".into());
+            }
+            if let Some((i, f, o)) = r.fail.clone() {
+                total.fail = Some((i, f, o));
+                total.concrete = ops.to_vec();
+                return total;
+            }
+            r
+        }};
+    }
+    let c13 = |sig: &str, msg: String| Failure::new(&["C13"], format!("c13/{sig}"), msg);
+    // (i) determinism: two fresh arenas, same calls
+    let mut w1: World<P> = World::new();
+    let mut w2: World<P> = World::new();
+    let r1 = sub!(&mut w1, &pre);
+    let r2 = sub!(&mut w2, &pre);
+    total.evals += 1;
+    if r1.digest != r2.digest || w1.arena != w2.arena {
+        fails.push(c13("replay-differs", "the same calls on two new arenas gave different ids/results or unequal arenas".into()));
+    }
+    let free_at_point = !w1.m.free_set().is_empty();
+    // (ii) clone == original; both continue independently and equal replicas that never saw a clone
+    let mut wc = w1.clone();
+    total.evals += 1;
+    if wc.arena != w1.arena {
+        fails.push(c13("clone-not-equal", "arena.clone() != arena".into()));
+    }
+    let ra = sub!(&mut w1, &a);
+    let rb = sub!(&mut wc, &b);
+    let r2a = sub!(&mut w2, &a);
+    total.evals += 1;
+    if ra.digest != r2a.digest || w1.arena != w2.arena {
+        fails.push(c13("original-disturbed-by-clone", "after cloning, the original continued differently from a replica that was never cloned".into()));
+    }
+    let mut w3: World<P> = World::new();
+    let _ = sub!(&mut w3, &pre);
+    let r3b = sub!(&mut w3, &b);
+    total.evals += 1;
+    if rb.digest != r3b.digest || wc.arena != w3.arena {
+        fails.push(c13("clone-diverges", "the clone continued differently from a replica built by the same calls without cloning".into()));
+    }
+    // (iii) clear() then continuation == continuation on Arena::new()
+    let cap0 = w1.arena.capacity();
+    let had_free = !w1.m.free_set().is_empty();
+    let rc = sub!(&mut w1, &[Op::Clear]);
+    let _ = rc;
+    total.evals += 1;
+    if w1.arena.capacity() < cap0 {
+        fails.push(c13("clear-capacity", format!("clear() reduced the capacity from {cap0} to {}", w1.arena.capacity())));
+    }
+    let mut wf: World<P> = World::new();
+    wf.m.next_serial = w1.m.next_serial;
+    let rcb = sub!(&mut w1, &b);
+    let rfb = sub!(&mut wf, &b);
+    total.evals += 1;
+    if rcb.digest != rfb.digest || w1.arena != wf.arena {
+        fails.push(c13("cleared-not-fresh", "after clear() the arena behaves differently from a new arena under the same calls (ids/results/arena differ)".into()));
+    }
+    // (iv) with_capacity(n): room for n, nothing observable
+    let mut wk: World<P> = World::new();
+    wk.arena = indextree::Arena::with_capacity(cap);
+    total.evals += 1;
+    if wk.arena.capacity() < cap || wk.arena != indextree::Arena::new() || !wk.arena.is_empty() {
+        fails.push(c13("with-capacity", format!("with_capacity({cap}): capacity {} / not equal to a new arena", wk.arena.capacity())));
+    }
+    let mut wn: World<P> = World::new();
+    let rka = sub!(&mut wk, &a);
+    let rna = sub!(&mut wn, &a);
+    if rka.digest != rna.digest || wk.arena != wn.arena {
+        fails.push(c13("with-capacity-differs", "an arena created with_capacity behaves differently from Arena::new()".into()));
+    }
+    let allocs = |r: &CaseRun| r.classes.iter().any(|c| (c.starts_with("new_node") || c.starts_with("append_value")) && !c.ends_with("skipped"));
+    if (free_at_point && allocs(&ra) && allocs(&rb)) || (had_free && allocs(&rcb)) {
+        total.nt.push(("C13", fnv(&format!("c13|{}|{}|{}|{}", w3.m.shape(), free_at_point, had_free, a.len().min(6)))));
+    }
+    total.digest = splitmix(r1.digest ^ ra.digest.rotate_left(7) ^ rb.digest.rotate_left(13) ^ rcb.digest.rotate_left(29));
+    total.concrete = ops.to_vec();
+    if !fails.is_empty() {
+        total.fail = Some((ops.len(), fails, None));
+    }
+    for w in [w1, w2, w3, wf, wk, wn] {
+        let f = w.finish();
+        if !f.is_empty() && total.fail.is_none() {
+            total.fail = Some((ops.len(), f, None));
+        }
+    }
+    total
+}
+
+/// Evaluate one generated case under the property's profile.
+pub fn eval_case<P: Payload>(ops: &[Op], prof: &Profile, cfg: &StepCfg, record: bool) -> CaseRun {
+    if prof.name == "C13" {
+        c13_eval::<P>(ops, prof, cfg, record)
+    } else {
+        run_history::<P>(ops, prof, cfg, record)
+    }
+}
+
+pub fn case_strategy(prof: &Profile) -> proptest::strategy::BoxedStrategy<Vec<Op>> {
+    use proptest::prelude::*;
+    if prof.name == "C13" {
+        let third = Profile { max_ops: (prof.max_ops / 3).max(4), w_probe: 0, ..prof.clone() };
+        let h = || history_strategy(&third);
+        (0u16..40, h(), h(), h())
+            .prop_map(|(cap, p, a, b)| {
+                let mut v = vec![Op::Reserve { k: cap }];
+                v.extend(p);
+                v.push(Op::Probe { seed: MARK_A });
+                v.extend(a);
+                v.push(Op::Probe { seed: MARK_B });
+                v.extend(b);
+                v
+            })
+            .boxed()
+    } else {
+        history_strategy(prof)
+    }
+}
+
+// ------------------------------------------------------------------------------------------------
 // statistics
 
 #[derive(Default)]
@@ -306,7 +465,7 @@ pub struct Violation {
 
 /// Does `ops` fail for `prop` (with signature `sig`, if given)?  Returns the failure if so.
 pub fn fails_for<P: Payload>(ops: &[Op], prof: &Profile, cfg: &StepCfg, prop: &str, sig: Option<&str>) -> Option<Failure> {
-    let run = run_history::<P>(ops, prof, cfg, false);
+    let run = eval_case::<P>(ops, prof, cfg, false);
     let (_, fs, _) = run.fail?;
     fs.into_iter().find(|f| f.hits(prop) && sig.map_or(true, |s| f.sig == s))
 }
@@ -483,7 +642,7 @@ pub fn shrink<P: Payload>(mut ops: Vec<Op>, prof: &Profile, cfg: &StepCfg, prop:
 }
 
 pub fn make_replay<P: Payload>(v: &Violation, prof: &Profile, cfg: &StepCfg, seed: u64, build: &str) -> ReplayFile {
-    let run = run_history::<P>(&v.ops, prof, cfg, true);
+    let run = eval_case::<P>(&v.ops, prof, cfg, true);
     let mut trace = run.trace.clone();
     if let Some((_, fs, _)) = &run.fail {
         for f in fs {
@@ -524,7 +683,7 @@ pub fn random_worker<P: Payload>(prop: &str, prof: &Profile, cfg: &StepCfg, seed
     let rng = TestRng::from_seed(RngAlgorithm::ChaCha, &seed_bytes);
     let config = Config { cases: 1, failure_persistence: None, max_shrink_iters: 3000, verbose: 0, ..Config::default() };
     let mut runner = TestRunner::new_with_rng(config, rng);
-    let strat = history_strategy(prof);
+    let strat = case_strategy(prof);
     let stats = RefCell::new(Stats::default());
     let target_sig: RefCell<Option<String>> = RefCell::new(None);
     let mut violation = None;
@@ -540,7 +699,7 @@ pub fn random_worker<P: Payload>(prop: &str, prof: &Profile, cfg: &StepCfg, seed
         let first = RefCell::new(true);
         let res = runner.run_one(tree, |ops: Vec<Op>| {
             let is_first = first.replace(false);
-            let run = run_history::<P>(&ops, prof, cfg, is_first && i % 97 == 0);
+            let run = eval_case::<P>(&ops, prof, cfg, is_first && i % 97 == 0);
             if is_first {
                 let nontrivial = run.nt.iter().any(|(p, _)| *p == prop);
                 stats.borrow_mut().absorb(&run, worker << 32 | i, nontrivial);
@@ -565,8 +724,8 @@ pub fn random_worker<P: Payload>(prop: &str, prof: &Profile, cfg: &StepCfg, seed
             stop.store(true, Ordering::Relaxed);
             let sig = target_sig.borrow().clone().unwrap_or_default();
             // concretise + ddmin
-            let run = run_history::<P>(&ops, prof, cfg, false);
-            let mut conc = concretise_failure(&run);
+            let run = eval_case::<P>(&ops, prof, cfg, false);
+            let mut conc = if prof.name == "C13" { ops.clone() } else { concretise_failure(&run) };
             if fails_for::<P>(&conc, prof, cfg, prop, Some(&sig)).is_none() {
                 conc = ops.clone(); // keep the generator-level case if concretisation changed behaviour
             }
@@ -590,7 +749,7 @@ pub fn regenerate_case(prof: &Profile, seed: u64, worker: u64, idx: u64) -> Opti
     let rng = TestRng::from_seed(RngAlgorithm::ChaCha, &seed_bytes);
     let config = Config { cases: 1, failure_persistence: None, ..Config::default() };
     let mut runner = TestRunner::new_with_rng(config, rng);
-    let strat = history_strategy(prof);
+    let strat = case_strategy(prof);
     for i in 0..=idx {
         let tree = strat.new_tree(&mut runner).ok()?;
         let v = tree.current();
